@@ -17,8 +17,22 @@ pub type Ord_ = OrderType<()>;
 pub const LEVEL_PRICE: u64 = 100;
 pub const OTHER_PRICE: u64 = 101;
 
+/// harness order ids. #4 is special: a ULID-format id with the same 16 bytes as #1 (ids of different
+/// formats sharing their bytes are different ids and must never be confused)
 pub fn oid(n: u64) -> OrderId {
+    if n == 4 {
+        let b = match OrderId::from_u64(1) {
+            OrderId::Uuid(u) => *u.as_bytes(),
+            OrderId::Ulid(u) => u.to_bytes(),
+        };
+        return OrderId::Ulid(ulid::Ulid::from_bytes(b));
+    }
     OrderId::from_u64(n)
+}
+
+/// alphabet number (1..15) of a harness id, if it is one
+pub fn alphabet_id(idnum: u128) -> Option<u64> {
+    (1..16u64).find(|k| idn(oid(*k)) == idnum)
 }
 
 /// Inverse of `oid` for harness ids; independent of the crate's own `as_bytes`.
@@ -37,8 +51,14 @@ pub fn idn(id: OrderId) -> u128 {
                 u128::from_be_bytes(*b)
             }
         }
-        OrderId::Ulid(u) => u.0 | (1u128 << 127),
+        // a ULID never compares equal to a UUID, whatever its bytes: map it into a disjoint-looking range
+        OrderId::Ulid(u) => hash128(&("ulid", u.0)) | (1u128 << 127),
     }
+}
+
+/// id equality independent of the crate's own `PartialEq for OrderId`
+pub fn same_id(a: OrderId, b: OrderId) -> bool {
+    idn(a) == idn(b)
 }
 
 pub fn idkey(id: OrderId) -> [u8; 16] {
@@ -50,7 +70,9 @@ pub fn idkey(id: OrderId) -> [u8; 16] {
 
 pub fn idname(id: OrderId) -> String {
     let n = idn(id);
-    if n < 1000 {
+    if let Some(k) = alphabet_id(n) {
+        format!("#{k}")
+    } else if n < 1000 {
         format!("#{n}")
     } else {
         format!("{id}")
@@ -494,7 +516,9 @@ pub fn with_vis_hid(o: &Ord_, v: u64, h: u64) -> Ord_ {
 pub fn short(o: &Ord_) -> String {
     let r = rec(o);
     let k = ["S", "IC", "PO", "TS", "PG", "ML", "RS"][r.kind as usize];
-    let idp = if r.id < 1000 {
+    let idp = if let Some(k) = alphabet_id(r.id) {
+        format!("#{k}")
+    } else if r.id < 1000 {
         format!("#{}", r.id)
     } else {
         format!("#{:x}", r.id)
@@ -521,7 +545,25 @@ pub fn short(o: &Ord_) -> String {
 // ---------------------------------------------------------------------------------------------
 // observations of the real level
 
-#[derive(Clone, Debug, PartialEq, Eq)]
+impl PartialEq for LevelObs {
+    fn eq(&self, o: &Self) -> bool {
+        (self.price, self.vis, self.hid, self.count, &self.listing)
+            == (o.price, o.vis, o.hid, o.count, &o.listing)
+            && same_orders(&self.orders, &o.orders)
+    }
+}
+impl Eq for LevelObs {}
+
+/// field-for-field equality of order lists through the harness' own normalisation
+pub fn same_orders(a: &[Ord_], b: &[Ord_]) -> bool {
+    a.len() == b.len() && a.iter().zip(b.iter()).all(|(x, y)| rec(x) == rec(y))
+}
+
+pub fn same_order(a: &Ord_, b: &Ord_) -> bool {
+    rec(a) == rec(b)
+}
+
+#[derive(Clone, Debug)]
 pub struct LevelObs {
     pub price: u64,
     pub vis: u64,
@@ -556,7 +598,7 @@ impl LevelObs {
         self.orders.iter().map(|o| o_hid(o) as u128).sum()
     }
     pub fn find(&self, id: OrderId) -> Option<&Ord_> {
-        self.orders.iter().find(|o| o_id(o) == id)
+        self.orders.iter().find(|o| same_id(o_id(o), id))
     }
     pub fn describe(&self) -> String {
         format!(
@@ -630,7 +672,18 @@ impl MatchObs {
 }
 
 /// Canonical observation of an `update_order` result.
-#[derive(Clone, Debug, PartialEq, Eq)]
+impl PartialEq for UpdObs {
+    fn eq(&self, o: &Self) -> bool {
+        match (self, o) {
+            (UpdObs::Order(a), UpdObs::Order(b)) => rec(a) == rec(b),
+            (UpdObs::NotFound, UpdObs::NotFound) | (UpdObs::Rejected, UpdObs::Rejected) => true,
+            _ => false,
+        }
+    }
+}
+impl Eq for UpdObs {}
+
+#[derive(Clone, Debug)]
 pub enum UpdObs {
     Order(Ord_),
     NotFound,
